@@ -18,7 +18,6 @@ import (
 	ssi "github.com/nuts-foundation/go-did"
 	"github.com/nuts-foundation/go-did/did"
 	"github.com/nuts-foundation/go-did/vc"
-	"github.com/nuts-foundation/nuts-node/crypto/jwx"
 	"github.com/nuts-foundation/nuts-node/vdr/didjwk"
 	"github.com/nuts-foundation/nuts-node/vdr/resolver"
 	"pgregory.net/rapid"
@@ -125,7 +124,7 @@ func c17VCWorld(entry string, near string) jose.World {
 func c17VCWorldFor(entry string, c17VictimDID string, attackerKid string, near string) jose.World {
 	w := jose.World{
 		KeyRef:  "kid",
-		Allowed: jwx.SupportedAlgorithmsAsStrings(),
+		Allowed: jose.NodeAllowed,
 		Kids:    map[string]string{jose.Victim: c17VictimDID + "#0", jose.Attacker: attackerKid, "unknown": "did:web:example.com:iam:nobody#0"},
 		Header:  jose.Header{jose.Str("typ", "JWT")},
 		Near:    near,
